@@ -644,7 +644,13 @@ func (s *State) heapSortFor(l Loc, cs Sort) Sort {
 	return ArrSort(SInt, cs)
 }
 
+// loadHook, when set, is told the heap key of every load (read frames: `never-reads`)
+var loadHook func(key string)
+
 func (s *State) LoadLoc(l Loc) Value {
+	if loadHook != nil {
+		loadHook(l.Key)
+	}
 	cs := components(l.T)
 	ts := make([]*Term, len(cs))
 	for i, c := range cs {
